@@ -6,6 +6,8 @@ ID = "C08"
 RULE = ("every history of up to H fragment deliveries over the shapes {no slice, one slice, two slices} x end flag x "
         "every Buffer/Ignore policy of the handler; random longer histories with 1..40-byte slices. observable per handler "
         "invocation: all bytes readable from the NAL, its complete flag, how its reader ends (EOF / WouldBlock), header. "
+        "NALs of 2^k-1..2^k+1 bytes (k up to 24 quick / 27 thorough) in 2..4 fragments, implementation only, against the history oracle; "
+        "each NAL also through Read::read, read_exact (chunk-sized and fixed pieces) and read_to_end. "
         "non-trivial = at least one invocation happened")
 CORRESPONDENCE = "Model/Accum.v nal_fragment vs push::NalAccumulator"
 ASSUMPTIONS = ["precondition of NalFragmentHandler::nal_fragment: every slice non-empty (C18 shows the Annex B reader meets it)"]
@@ -44,6 +46,28 @@ def gen(tier, rng):
             frs.append(frag(sl, rng.random() < 0.35))
         pol = "".join(rng.choice("BBBI") for _ in range(rng.randrange(0, 14)))
         cases.append("accum %s %s %d" % (",".join(frs), pol or "B", rng.choice([1, 2, 3, 5, 32, 40, 41])))
+    # NALs around every power of two up to 16 MiB (quick) / 128 MiB (thorough), delivered in 2..4 fragments, some with an
+    # Ignore: synthetic bytes made inside the harness, implementation only, judged by the history oracle below
+    tops = [12, 16, 20, 24] if tier == "quick" else [12, 16, 17, 20, 22, 23, 24, 25, 26, 27]
+    for k in tops:
+        for d in (-1, 0, 1):
+            total = (1 << k) + d
+            for shape in range(4 if k <= 24 else 1):
+                cuts = sorted(rng.sample(range(1, total), rng.choice([1, 2, 3])))
+                if shape == 1:
+                    cuts = [1]                              # the header byte alone, then the rest
+                if shape == 2:
+                    cuts = [total - 1]
+                sizes = [b - a for a, b in zip([0] + cuts, cuts + [total])]
+                frs = []
+                for i, n in enumerate(sizes):
+                    sl = "%d" % n if n < 4 or rng.random() < 0.5 else "%d/%d" % (n // 2, n - n // 2)
+                    frs.append("%s:%d" % (sl, 1 if i == len(sizes) - 1 and shape == 0 else 0))
+                if shape != 0:
+                    frs.append(rng.choice(["3:1", ":1", "1:0,:1"]))   # the 2^k+d bytes are all buffered before the end arrives
+                frs.append("5:1")                            # a small NAL afterwards
+                pol = "B" * 8 if shape != 3 else "".join(rng.choice("BBI") for _ in range(8))
+                cases.append("!accumbig %s %s" % (",".join(frs), pol))
     return cases
 
 
@@ -51,8 +75,42 @@ def nontrivial(r):
     return bool(r["dev"].strip())
 
 
+def synth(a, b):
+    pat = bytes(((j * 7 + 3) % 255 + 1) for j in range(251))
+    k0 = a // 251
+    return (pat * ((b - k0 * 251) // 251 + 2))[a - k0 * 251: b - k0 * 251]
+
+
+def big_check(r):
+    import zlib
+    parts = r["case"].lstrip("!").split()
+    pol = list(parts[2]) if len(parts) > 2 else []
+    want, cur, ignored, k, pos = [], b"", False, 0, 0
+    for f in parts[1].split(","):
+        sizes, e = f.split(":")
+        n = sum(int(x) for x in sizes.split("/") if x)
+        cur += synth(pos, pos + n)
+        pos += n
+        if not ignored and cur:
+            hdr = "%d.%d" % ((cur[0] >> 5) & 3, cur[0] & 31) if not cur[0] & 0x80 else "err"
+            want.append("L%d:%08x;%d;%s;%s;rd=same" % (len(cur), zlib.crc32(cur), e == "1", "Eof" if e == "1" else "WouldBlock", hdr))
+            d = pol[k] if k < len(pol) else "B"
+            k += 1
+            if d == "I":
+                ignored = True
+        if e == "1":
+            cur, ignored = b"", False
+    got = r["dev"].split()
+    want = [w.replace(";True;", ";1;").replace(";False;", ";0;") for w in want]
+    if got != want:
+        return ("value", "handler invocations differ from the property's own reading of the history: want %s got %s" % (want[:6], got[:6]))
+    return None
+
+
 def extra_check(r):
     """independent oracle: replay the history against the property text itself"""
+    if r["case"].lstrip("!").startswith("accumbig"):
+        return big_check(r)
     parts = r["case"].split()
     frs = [] if parts[1] == "-" else parts[1].split(",")
     pol = list(parts[2]) if len(parts) > 2 else []
@@ -85,5 +143,7 @@ def extra_check(r):
 
 
 def classify(r):
+    if r["case"].startswith("!"):
+        return ["big"]
     n = len(r["dev"].split())
     return ["invocations=%d" % min(n, 6), "ignore" if "I" in r["case"].split()[-1] else "buffer_only"]
